@@ -188,7 +188,12 @@ AdvanceMonth(S, c) == LET R == AdvanceMonth0(S, c) IN
 \* nothing happens for a provider without metadata (unstaked everywhere)
 Reward(S, p, from, amt) ==
   IF amt <= 0 \/ ~HasMeta(S, p) \/ S.bank[from] < amt THEN S
-  ELSE [Owe(Move(S, from, "ds", amt), "ds", amt) EXCEPT !.rewd[p] = @ + amt]
+  ELSE LET tot == SumF([s \in Specs |-> IF S.prov[p][s].on THEN S.prov[p][s].stake ELSE 0]) + SumF([d \in Delegators |-> S.dlg[d][p]])
+           \* commission 50 %: a delegator gets half of its stake-proportional part
+           sh == [d \in Delegators |-> IF tot = 0 THEN 0 ELSE (amt * S.dlg[d][p]) \div (2 * tot)]
+           dsum == SumF(sh)
+       IN [Owe(Move(S, from, "ds", amt), "ds", amt) EXCEPT !.rewd[p] = @ + (amt - dsum),
+                                                            !.drew = [d \in Delegators |-> @[d] + sh[d]]]
 \* ContributeToValidatorsAndCommunityPool: 5% validators, 2% community (default params), rest is the reward
 Tax(S, from, amt) ==
   LET v == (amt * 5) \div 100  cm == (amt * 2) \div 100 IN
@@ -262,7 +267,8 @@ EndBlock(S) ==
   LET \* unbonding entries mature (staking end blocker)
       due == {u \in S.unb : u.at <= S.t}
       amt == SumF([u \in due |-> u.amt])
-      S1 == [Move(S, "notbonded", "users", amt) EXCEPT !.unb = @ \ due, !.red = {r \in @ : r.at > S.t}]
+      S1 == [Move(S, "notbonded", "users", amt) EXCEPT !.unb = @ \ due, !.red = {r \in @ : r.at > S.t},
+               !.liq = [d \in Delegators |-> @[d] + SumF([u \in {u \in due : u.who = d} |-> u.amt])]]
       \* end-block timer stores in registration order: monthly refill (by time), then cu-tracker payouts (by height)
       S2 == IF S1.refillAt <= S1.t THEN Refill(S1) ELSE S1
       RECURSIVE Pays(_)
@@ -424,8 +430,9 @@ Cands(S, k) ==
     [] k = "Unfreeze" -> {x \in {[a |-> "Unfreeze", prov |-> p, spec |-> s] : p \in Providers, s \in Specs} :
                             /\ StakedOn(S, x.prov, x.spec) /\ S.prov[x.prov][x.spec].frozen
                             /\ S.prov[x.prov][x.spec].stake >= MINSTAKE}
-    [] k = "DsDelegate" -> {[a |-> "DsDelegate", del |-> d, prov |-> p, val |-> v, amt |-> am] :
-                              d \in Delegators, p \in {p \in Providers : HasMeta(S, p)}, v \in Validators, am \in Amts}
+    [] k = "DsDelegate" -> {x \in {[a |-> "DsDelegate", del |-> d, prov |-> p, val |-> v, amt |-> am] :
+                                     d \in Delegators, p \in {p \in Providers : HasMeta(S, p)}, v \in Validators, am \in Amts} :
+                              S.liq[x.del] >= x.amt}
     [] k = "DsRedelegate" -> {x \in {[a |-> "DsRedelegate", del |-> d, prov |-> p, prov2 |-> p2, amt |-> am] :
                                        d \in Delegators, p \in Providers, p2 \in Providers, am \in Amts} :
                                 /\ x.prov # x.prov2 /\ HasMeta(S, x.prov2) /\ S.dlg[x.del][x.prov] >= x.amt}
@@ -433,11 +440,17 @@ Cands(S, k) ==
                                    d \in Delegators, p \in Providers, v \in Validators, am \in Amts} :
                             S.dlg[x.del][x.prov] >= x.amt /\ S.vdl[x.del][x.val] >= x.amt}
     [] k = "DsClaim" ->
-         LET pc == {x \in {[a |-> "DsClaim", who |-> w, prov |-> p] : w \in Providers, p \in Providers \cup {""}} :
+         \* preference: claimants whose liquid balance is smaller than what they claim (a "poor" delegator that delegated
+         \* nearly everything), then any claimant with something to claim, then a no-op claim
+         LET poor == {[a |-> "DsClaim", who |-> d, prov |-> ""] : d \in {d \in Delegators : S.drew[d] > S.liq[d]}}
+             pc == {x \in {[a |-> "DsClaim", who |-> w, prov |-> p] : w \in Providers, p \in Providers \cup {""}} :
                       S.rewd[x.who] > 0 /\ x.prov \in {x.who, ""}}
-             dc == {[a |-> "DsClaim", who |-> w, prov |-> ""] : w \in {d \in Delegators : pc = {} \/ DTotal(S, d) > 0}}
-         IN pc \cup dc
-    [] k = "ValDelegate" -> {[a |-> "ValDelegate", del |-> d, val |-> v, amt |-> am] : d \in Delegators, v \in Validators, am \in Amts}
+             dc == {[a |-> "DsClaim", who |-> d, prov |-> ""] : d \in {d \in Delegators : S.drew[d] > 0}}
+         IN IF poor # {} THEN poor
+            ELSE IF pc \cup dc # {} THEN pc \cup dc
+            ELSE {[a |-> "DsClaim", who |-> d, prov |-> ""] : d \in Delegators}
+    [] k = "ValDelegate" -> {x \in {[a |-> "ValDelegate", del |-> d, val |-> v, amt |-> am] : d \in Delegators, v \in Validators, am \in Amts} :
+                               S.liq[x.del] >= x.amt}
     [] k = "ValUndelegate" -> {x \in {[a |-> "ValUndelegate", del |-> d, val |-> v, amt |-> am] :
                                         d \in Delegators, v \in Validators, am \in Amts} :
                                  S.vdl[x.del][x.val] >= x.amt}
@@ -539,17 +552,22 @@ ApplyTx(S, x) ==
     [] x.a = "Freeze" -> [S EXCEPT !.prov[x.prov][x.spec].frozen = TRUE]
     [] x.a = "Unfreeze" -> [S EXCEPT !.prov[x.prov][x.spec].frozen = FALSE, !.prov[x.prov][x.spec].since = NextEpochOf(S)]
     [] x.a = "DsDelegate" ->
-         [Move(S, "users", "bonded", x.amt) EXCEPT !.vdl[x.del][x.val] = @ + x.amt, !.dlg[x.del][x.prov] = @ + x.amt]
+         [Move(S, "users", "bonded", x.amt) EXCEPT !.vdl[x.del][x.val] = @ + x.amt, !.dlg[x.del][x.prov] = @ + x.amt,
+                                                   !.liq[x.del] = @ - x.amt]
     [] x.a = "DsRedelegate" -> Refreeze([S EXCEPT !.dlg[x.del][x.prov] = @ - x.amt, !.dlg[x.del][x.prov2] = @ + x.amt], x.prov)
     [] x.a = "DsUnbond" ->
          Refreeze([Unbonding(S, x.del, x.val, x.amt) EXCEPT !.vdl[x.del][x.val] = @ - x.amt, !.dlg[x.del][x.prov] = @ - x.amt], x.prov)
     [] x.a = "DsClaim" ->
-         \* abstract: all of a provider's reward is claimable by its vault (the delegators' shares are not split off)
+         \* a vault claims its provider's part, a delegator (prov = "") everything it was credited
          IF x.who \in Providers /\ x.prov \in {x.who, ""} /\ S.rewd[x.who] > 0
          THEN [Move([S EXCEPT !.obl.ds = @ - S.rewd[x.who]], "ds", "users", S.rewd[x.who]) EXCEPT !.rewd[x.who] = 0]
+         ELSE IF x.who \in Delegators /\ x.prov = "" /\ S.drew[x.who] > 0
+         THEN [Move([S EXCEPT !.obl.ds = @ - S.drew[x.who]], "ds", "users", S.drew[x.who]) EXCEPT
+                 !.liq[x.who] = @ + S.drew[x.who], !.drew[x.who] = 0]
          ELSE S
     [] x.a = "ValDelegate" ->
-         [Move(S, "users", "bonded", x.amt) EXCEPT !.vdl[x.del][x.val] = @ + x.amt, !.dlg[x.del]["empty"] = @ + x.amt]
+         [Move(S, "users", "bonded", x.amt) EXCEPT !.vdl[x.del][x.val] = @ + x.amt, !.dlg[x.del]["empty"] = @ + x.amt,
+                                                   !.liq[x.del] = @ - x.amt]
     [] x.a = "ValUndelegate" ->
          TakeDlg([Unbonding(S, x.del, x.val, x.amt) EXCEPT !.vdl[x.del][x.val] = @ - x.amt], x.del, x.amt, ProvOrder)
     [] x.a = "ValRedelegate" ->
@@ -616,15 +634,17 @@ InitState ==
    dlg |-> [d \in Delegators |-> [p \in Providers \cup {"empty"} |-> 0]],
    vdl |-> [w \in Stakers |-> [v \in Validators |-> IF w \in {"P1", "P2"} /\ v = "VA1" THEN 5000 ELSE 0]],
    valself |-> [v \in Validators |-> 10000000],
-   rewd |-> [p \in Providers |-> 0],
+   rewd |-> [p \in Providers |-> 0], drew |-> [d \in Delegators |-> 0],
+   \* liquid balance of the delegators: D2 is "poor" (funded with one delegation + 3 tokens)
+   liq |-> [d \in Delegators |-> IF d = "D2" THEN 2003 ELSE 1000000],
    unb |-> {}, red |-> {}, seq |-> 0, lastMove |-> [p \in Providers |-> 0],
    ip |-> [on |-> FALSE, cost |-> 0, subs |-> {}, cur |-> 0, funds |-> {}],
    refillAt |-> NextMonth(DAY + 3661), monthsLeft |-> 47,
    proj |-> [c \in Consumers |-> {}], keys |-> {},
-   bank |-> [a \in Accts |-> CASE a = "users" -> 29992000 [] a = "valalloc" -> 4700000 [] a = "provalloc" -> 4700000
+   bank |-> [a \in Accts |-> CASE a = "users" -> 28994003 [] a = "valalloc" -> 4700000 [] a = "provalloc" -> 4700000
                                    [] a = "valdist" -> 97990 [] a = "feecol" -> 2010 [] a = "provdist" -> 100000 [] a = "bonded" -> 20010000
                                    [] OTHER -> 0],
-   supply |-> 59602000, dsup |-> 0,
+   supply |-> 58604003, dsup |-> 0,
    obl |-> [ds |-> 0, iprpc |-> 0, sub |-> 0],
    panicked |-> FALSE, last |-> [ev |-> "reset", res |-> "reset"]]
 
@@ -633,7 +653,7 @@ InitState ==
 N1(f) == f @@ <<>>
 N2(f) == N1([x \in DOMAIN f |-> N1(f[x])])
 NormState(S) == [S EXCEPT !.plans = N2(@), !.subs = N1(@), !.prov = N2(@), !.dlg = N2(@), !.vdl = N2(@),
-                          !.valself = N1(@), !.rewd = N1(@), !.lastMove = N1(@), !.proj = N1(@), !.bank = N1(@)]
+                          !.valself = N1(@), !.rewd = N1(@), !.drew = N1(@), !.liq = N1(@), !.lastMove = N1(@), !.proj = N1(@), !.bank = N1(@)]
 
 Init == st = NormState(InitState) /\ nops = 0 /\ hist = <<>>
 
